@@ -6,6 +6,8 @@ import Momo.Proof.ArrFaultStrong
     "number of constructed objects = number of cells" (`execPrims_spec`).
 -/
 namespace Momo.ArrF
+set_option linter.unusedSimpArgs false
+set_option linter.unusedVariables false
 open Momo Momo.Arr
 open FM (throw tryCatch)
 variable {α β γ : Type}
